@@ -208,6 +208,15 @@ def run(repo):
                         if ntext(a) != 'self.obj_support':
                             self.bad.append((n, 'le_to_rc(%s): the fallback set is not self.obj_support'
                                              % ntext(a)))
+                        # le_to_rc prefers the set it is given over the constraint's own one, so the
+                        # default set may only be passed once the constraint is known to have none
+                        if ('cond', False, recv + '.support') not in state and \
+                                ('cond', True, 'not %s.support' % recv) not in state and \
+                                ('cond', True, '%s.support is None' % recv) not in state and \
+                                ('cond', False, '%s.support is not None' % recv) not in state:
+                            self.bad.append((n, 'le_to_rc(self.obj_support) is reachable for a constraint '
+                                                'that has its own set (%s.support): the objective\'s default '
+                                                'set would override the set given to forall()' % recv))
     lw = _Lower()
     lw.run(body_stmts(dm))
     ok = not lw.bad
